@@ -15,9 +15,9 @@ from . import smt
 from .smt import (T, INT, BOOL, STR, IntV, BoolV, StrV, TRUE, FALSE, And, Or, Not,
                   Implies, Ite, Eq, Ne, Add, Sub, Mul, Lt, Le, Gt, Ge, Len, Concat,
                   Substr, At, Contains, PrefixOf, SuffixOf, Max, Min)
-from .vals import (Undecided, V, VInt, VBool, VStr, VNone, NONE, VVal, VSeq, VTuple,
+from .vals import (VEmptyList, EMPTY_LIST, Undecided, V, VInt, VBool, VStr, VNone, NONE, VVal, VSeq, VTuple,
                    VRef, VFunc, VPy, VBound, VExc, Raised, HList, HPyList, HDict,
-                   HSet, HInst, HObjList, HMap, parse_type, sort_of, wrap, T_INT, T_BOOL, T_STR,
+                   HSet, HInst, HObjList, HMap, HRecSeq, HIdxList, HOpaque, parse_type, sort_of, wrap, T_INT, T_BOOL, T_STR,
                    T_NONE, T_VAL)
 from . import contracts as C
 
@@ -240,7 +240,7 @@ class Engine(object):
                         changed = changed or dict(o.fields)
                         changed[k] = nv
                 if changed:
-                    st.heap[loc] = HInst(o.cls, changed)
+                    st.heap[loc] = HInst(o.cls, changed, o.view)
             elif isinstance(o, HSet) and len(o.arr.s) > self.ABBREV_LIMIT:
                 st.heap[loc] = HSet(self.abbrev(o.arr, st, 'set'))
 
@@ -385,6 +385,15 @@ class Engine(object):
             return VRecList(n, ty[1], self.ctx.fresh_name(base))
         if k == 'const':
             return VStr(StrV(ty[1]))
+        if k == 'idxlist':
+            # references into some record list the caller cannot see: only the index sequence is known
+            return st.alloc(HIdxList(None, self.ctx.fresh(base + '_idx', '(Seq Int)')))
+        if k == 'recseq':
+            from . import reclists
+            return reclists.fresh_recseq(self, ty[1], base, st)
+        if k == 'logger':
+            from . import models
+            return VPy(models.NOOP_CALLABLE)
         if k == 'opt':
             return VOptSym(self.ctx.fresh(base + '_isnone', BOOL), self.fresh(ty[1], base, st, ukey))
         if k == 'dict':
@@ -415,6 +424,8 @@ class Engine(object):
             o = st.heap[v.loc]
             if isinstance(o, HList):
                 return o.seq, o.elem
+            if isinstance(o, HIdxList):
+                return o.idx, ('int',)
             if isinstance(o, HPyList):
                 if not o.items:
                     raise Undecided('element type of empty concrete list unknown')
@@ -438,12 +449,15 @@ class Engine(object):
             return Ne(v.t, IntV(0))
         if isinstance(v, VStr):
             return Gt(Len(v.t), IntV(0))
-        if isinstance(v, VNone):
+        if isinstance(v, (VNone, VEmptyList)):
             return FALSE
         if isinstance(v, VSeq):
             return Gt(Len(v.t), IntV(0))
         if isinstance(v, VOptSym):
             return And(Not(v.isnone), self.truthy(v.val, st))
+        if isinstance(v, VVal):
+            self.trusted_used.add('builtin:bool(opaque value) (uninterpreted py_truthy)')
+            return self.model_app('py_truthy', [v.t], BOOL)
         if isinstance(v, VTuple):
             return BoolV(len(v.items) > 0)
         if isinstance(v, VRef):
@@ -454,6 +468,10 @@ class Engine(object):
                 return BoolV(len(o.items) > 0)
             if isinstance(o, HObjList):
                 return Gt(o.n, IntV(0))
+            if isinstance(o, HRecSeq):
+                return Gt(o.n, IntV(0))
+            if isinstance(o, HIdxList):
+                return Gt(Len(o.idx), IntV(0))
             if isinstance(o, HDict):
                 return BoolV(len(o.entries) > 0)
             if isinstance(o, HInst):
@@ -476,6 +494,13 @@ class Engine(object):
             return VTuple([self.v_ite(c, x, y, st) for x, y in zip(a.items, b.items)])
         if isinstance(a, VNone) and isinstance(b, VNone):
             return NONE
+        if isinstance(a, VEmptyList) or isinstance(b, VEmptyList):
+            if isinstance(a, VEmptyList) and isinstance(b, VEmptyList):
+                return a
+            other = b if isinstance(a, VEmptyList) else a
+            so, eo = self.seq_of(other, st)
+            e = smt.Empty(so.sort)
+            return VSeq(Ite(c, e, so) if isinstance(a, VEmptyList) else Ite(c, so, e), eo)
         try:
             sa, ea = self.seq_of(a, st)
             sb, eb = self.seq_of(b, st)
@@ -527,6 +552,17 @@ class Engine(object):
         for x, y in ((a, b), (b, a)):
             if isinstance(x, VRef) and isinstance(st.heap.get(x.loc), HInst) and isinstance(y, (VStr, VInt, VBool)):
                 return FALSE        # an instance without __eq__ never equals a str/int
+        def _is_empty(x):
+            return isinstance(x, VEmptyList) or isinstance(x, VRef) and isinstance(st.heap.get(x.loc), HPyList) and not st.heap[x.loc].items
+        if _is_empty(a) or _is_empty(b):
+            other = b if _is_empty(a) else a
+            if _is_empty(other):
+                return TRUE
+            try:
+                so, _ = self.seq_of(other, st)
+                return Eq(Len(so), IntV(0))
+            except Undecided:
+                pass
         try:
             sa, ea = self.seq_of(a, st)
             sb, eb = self.seq_of(b, st)
@@ -658,6 +694,11 @@ class Engine(object):
         for vals, s in self.ev_list(node.elts, st):
             if isinstance(vals, Raised):
                 out.append((vals, s))
+            elif self.pure and not vals:
+                out.append((EMPTY_LIST, s))
+            elif self.pure and vals and all(isinstance(v, (VInt, VStr, VBool)) and v.ty == vals[0].ty for v in vals):
+                # spec level: a list of primitives is a sequence value (no heap object)
+                out.append((VSeq(Concat(*[smt.Unit(v.t) for v in vals]), vals[0].ty), s))
             else:
                 out.append((s.alloc(HPyList(vals)), s))
         return out
@@ -792,6 +833,10 @@ class Engine(object):
                          ast.LShift: operator.lshift, ast.RShift: operator.rshift, ast.BitXor: operator.xor}
                 if type(op) in table:
                     return [(VInt(IntV(table[type(op)](a.t.lit[1], b.t.lit[1]))), st)]
+        if isinstance(a, VVal) and isinstance(b, VVal) and isinstance(op, (ast.Add, ast.Sub, ast.Mult, ast.Div)):
+            # arithmetic on opaque numbers (timings): an opaque number
+            self.ctx.sort('Val')
+            return [(VVal(self.model_app('py_arith_' + type(op).__name__.lower(), [a.t, b.t], 'Val')), st)]
         if isinstance(a, VStr) and isinstance(b, VStr) and isinstance(op, ast.Add):
             return [(VStr(Concat(a.t, b.t)), st)]
         if isinstance(a, VStr) and isinstance(b, VInt) and isinstance(op, ast.Mult):
@@ -802,6 +847,15 @@ class Engine(object):
             return self.call_model('str.%', [a, b], {}, st, node)
         if isinstance(op, ast.Add):
             # list concatenation -> new list
+            def _empty(x):
+                return isinstance(x, VEmptyList) or isinstance(x, VRef) and isinstance(st.heap.get(x.loc), HPyList) and not st.heap[x.loc].items
+            if self.pure and (_empty(a) or _empty(b)) and not (_empty(a) and _empty(b)):
+                other = b if _empty(a) else a
+                try:
+                    so, eo = self.seq_of(other, st)
+                    return [(VSeq(so, eo), st)]
+                except Undecided:
+                    pass
             try:
                 sa, ea = self.seq_of(a, st)
                 sb, eb = self.seq_of(b, st)
@@ -895,6 +949,8 @@ class Engine(object):
                 return smt.mk('select', [o.arr, item.t], BOOL)
             if isinstance(o, HMap) and isinstance(item, VInt):
                 return smt.mk('select', [o.present, item.t], BOOL)
+            if isinstance(o, HInst) and o.cls in C.DICT_RECORDS and isinstance(item, VStr) and item.t.lit is not None:
+                return BoolV(item.t.lit[1] in o.fields)
             if isinstance(o, HObjList):
                 raise Undecided('membership in an anonymous object list', node)
             if isinstance(o, HList):
@@ -983,6 +1039,14 @@ class Engine(object):
                 return st.alloc(HPyList(list(reversed(st.heap[base.loc].items))))
             raise Undecided('slice step', node)
         lo_t, hi_t = self._opt_int(lo), self._opt_int(hi)
+        from .executor import VRecList
+        if isinstance(base, VRecList) and (lo_t is None or (lo_t.lit is not None and lo_t.lit[1] == 0)):
+            # prefix of a record list
+            if hi_t is None:
+                return base
+            if hi_t.lit is None and self.entails(st, And(Le(IntV(0), hi_t), Le(hi_t, base.n))):
+                return VRecList(hi_t, base.cls, base.base, base.full_n)
+            return VRecList(self.norm_index(hi_t, base.n), base.cls, base.base, base.full_n)
         if isinstance(base, VStr):
             return VStr(self.slice_seq(base.t, lo_t, hi_t))
         if isinstance(base, VSeq):
@@ -1059,6 +1123,26 @@ class Engine(object):
                     return [(o.items[idx.t.lit[1]], st)]
                 except IndexError:
                     return self._safe_result(FALSE, NONE, IndexError, st, node)
+            if isinstance(o, (HRecSeq, HIdxList)) and isinstance(idx, VInt):
+                from . import reclists
+                n = o.n if isinstance(o, HRecSeq) else Len(o.idx)
+                i = idx.t
+                k = i if (i.lit is not None and i.lit[1] >= 0) else Ite(Lt(i, IntV(0)), Add(i, n), i)
+                inr = And(Ge(i, smt.Neg(n)), Lt(i, n))
+                out = []
+                for r, s in self._safe_result(inr, NONE, IndexError, st, node):
+                    if isinstance(r, Raised):
+                        out.append((r, s))
+                    elif isinstance(o, HRecSeq):
+                        out.append((reclists.element_view(self, base, o, k, s), s))
+                    else:
+                        out.append((reclists.idx_element(self, o, k, s), s))
+                return out
+            if isinstance(o, HInst) and isinstance(idx, VStr) and idx.t.lit is not None and o.cls in C.DICT_RECORDS:
+                # dict-like record (a summary dict ...): key -> field
+                if idx.t.lit[1] in o.fields:
+                    return [(o.fields[idx.t.lit[1]], st)]
+                return self._safe_result(FALSE, NONE, KeyError, st, node)
             if isinstance(o, HObjList) and isinstance(idx, VInt):
                 n = o.n
                 i = idx.t
@@ -1221,7 +1305,7 @@ class Engine(object):
                     return [(o.fields[name], st)]
                 return self.instance_attr(v, o, name, st, node)
             return [(VBound(v, name), st)]
-        if isinstance(v, (VStr, VSeq, VTuple, VInt)):
+        if isinstance(v, (VStr, VSeq, VTuple, VInt, VVal)):
             return [(VBound(v, name), st)]
         if isinstance(v, VExc):
             if name in v.attrs:
